@@ -1,4 +1,2 @@
 # reasons for properties that are not claimed (kept current)
-NA = {
- "C04": "the planned value-flow rule W1 (every wire-controlled integer reaching an index, allocation or loop bound passes a two-sided guard) needs the go/ssa taint engine of DESIGN.md section 2 (Engine B), which is not built yet; the clauses that are decided elsewhere (T5 error defaults under C06, R2/R3 containment of decode panics under C11) do not by themselves bound time, memory or panics of the decoder, which quantify over runtime values",
-}
+NA = {}
